@@ -51,7 +51,12 @@ def rule_dispatch_loop_poll(ctx, rep, rid: str) -> None:
         is_disp = lambda n: node_calls(n, lambda c: _resolves_to(ctx, c, disp))
         p = cfg.path_avoiding(head.id, is_disp, blocked, within, start_succ=True)
         if p is not None:
-            rep.bad(rid, key, f"loop in {f.qual}: path [{path_str(p)}] reaches the dispatcher without passing {lc.qual}", f"{f.module.rel}:{loop.lineno}", {"path_lines": [n.line for n in p]})
+            # not polled per instruction: is it polled at every safepoint instead?
+            sp = _safepoint_discipline(ctx, poll)
+            if sp[0]:
+                rep.ok(rid, key, dict(sp[1], loop=f"{f.module.rel}:{loop.lineno}", discipline="safepoints: every backward jump the compiler can emit and every frame push passes the limit check; code between two safepoints is straight-line"))
+                continue
+            rep.bad(rid, key, f"loop in {f.qual}: path [{path_str(p)}] reaches the dispatcher without passing {lc.qual}, and the limit check is not made at every safepoint either: {sp[1]}", f"{f.module.rel}:{loop.lineno}", {"path_lines": [n.line for n in p]})
             continue
         p = cfg.path_avoiding(head.id, lambda n: n.id == head.id, blocked, within, start_succ=True)
         if p is not None:
@@ -65,6 +70,80 @@ def rule_dispatch_loop_poll(ctx, rep, rid: str) -> None:
                 continue  # the wrapper's own callers are checked instead
             if not any(cs.func is f and _inside(cs.call, loop) for f, loop in ctx.facts.dispatch_loops()):
                 rep.bad(rid, f"{cs.func.qual}:call-outside-loop", f"{cs.func.qual} calls the dispatcher outside a polled run loop", f"{cs.func.module.rel}:{cs.line}")
+
+
+def _safepoint_discipline(ctx, poll: Set[int]):
+    """(True, evidence) when the limit check is made (a) in the handler of every opcode the compiler can emit with a
+    BACKWARD target, on the path that takes the jump, and (b) by every function that pushes a call frame (or that
+    function runs under the host-depth budget).  Execution between two such points is straight-line code of one
+    function, so it is bounded by the program's size.  (False, why) otherwise."""
+    cached = getattr(ctx, "_safepoints", None)
+    if cached is not None:
+        return cached
+    from .. import emit
+    from .recursion import _has_depth_guard
+
+    ea = emit.get(ctx)
+    back: Set[str] = set()
+    for chain in ("_compile_statement", "_compile_expression"):
+        for br in ea.run_chain(chain):
+            for e in br.ends:
+                for ev in e.events:
+                    if ev[0] == "backjump":
+                        back |= set(str(ev[3]).split("/"))
+    if not back:
+        res = (False, "the compiler's backward jumps could not be determined")
+        ctx._safepoints = res
+        return res
+    df, chain = ctx.facts.vm_dispatcher()
+    backtests = ("arg<frame.ip", "arg<=frame.ip", "frame.ip>arg", "frame.ip>=arg")
+    for op in sorted(back):
+        body = chain.body_of(op)
+        if body is None:
+            res = (False, f"no handler for the backward-capable opcode {op}")
+            ctx._safepoints = res
+            return res
+        holder = body[0]._parent
+        writes = [a for s_ in body for a in ast.walk(s_) if isinstance(a, ast.Assign) and any(norm(t) == "frame.ip" for t in a.targets)]
+        polls = [c for s_ in body for c in ast.walk(s_) if isinstance(c, ast.Call) and _resolves_to(ctx, c, poll)]
+        ok = False
+        for w in writes:
+            wg = {(norm(t).replace(" ", ""), pol) for t, pol in guards_of(w, holder)}
+            covered = False
+            for c in polls:
+                cg_ = {(norm(t).replace(" ", ""), pol) for t, pol in guards_of(c, holder)}
+                extra = cg_ - wg
+                if all(pol and t in backtests for t, pol in extra):
+                    covered = True
+            if not covered:
+                res = (False, f"the compiler emits {op} with a backward target (a loop's closing jump), and its handler sets frame.ip (line {w.lineno}) on a path that does not make the limit check: a loop closed by {op} whose body calls no script function never reaches a safepoint")
+                ctx._safepoints = res
+                return res
+            ok = True
+        if not ok:
+            res = (False, f"the handler of {op} does not write frame.ip: unrecognised jump handler")
+            ctx._safepoints = res
+            return res
+    pushers = []
+    for f in ctx.tree.funcs:
+        if f.cls is not df.cls or isinstance(f.node, ast.Lambda):
+            continue
+        if any(isinstance(c, ast.Call) and norm(c.func) == "self.call_stack.append" for c in f.own_nodes()):
+            pushers.append(f)
+            if id(f) in poll:
+                continue
+            if _has_depth_guard(f, ctx):
+                continue  # nested run loops are capped by the host-depth budget
+            res = (False, f"{f.qual} pushes a call frame without making the limit check (and outside the host-depth budget): recursion through it passes no safepoint")
+            ctx._safepoints = res
+            return res
+    if not pushers:
+        res = (False, "no function pushing call frames found")
+        ctx._safepoints = res
+        return res
+    res = (True, {"backward_capable_opcodes": sorted(back), "frame_pushers": [f.qual for f in pushers]})
+    ctx._safepoints = res
+    return res
 
 
 def _inside(node, anc) -> bool:
